@@ -447,6 +447,11 @@ func runConsts(r *lib.Run) {
 		r.Stat("census.inherited."+n, 1)
 	}
 	r.Case("globals", []string{"encoders"}, env.globals())
+	if w, ok := widthsTable(dir); ok {
+		r.Case("widths", []string{"encoders"}, w)
+	} else {
+		r.Stat("consts.widths-parse-error", 1)
+	}
 	// declared constants
 	for _, n := range []string{"EthMaxSize", "EthHeaderLen", "EthAddrLen", "EthType8021AD", "HeaderLen", "UDPHeaderLen",
 		"IP6HeaderLen", "ARPLen", "ARPOperationRequest", "ARPOperationReply", "ICMP4TypeEchoReply", "ICMP4TypeEchoRequest",
